@@ -72,16 +72,21 @@ def make_context(kind, backend, auth):
 def client_kwargs(p, auth, der, variant=0):
     kw = {"timeout": 8.0}
     ctx = make_context(p["ctx"], p["backend"], auth)
+    # how the configured CAs are supplied: a file, PEM text, a hashed directory, through the caller's
+    # context (load_verify_locations done by the caller), or not at all (=> the default trust store)
+    if (ctx is None) != (p["casrc"] != "ctx"):
+        raise ValueError(f"lattice point outside the lattice: ctx={p['ctx']} casrc={p['casrc']}")
     if ctx is not None:
         kw["ssl_context"] = ctx
         if p["route"].startswith("tunnel_https"):
             kw["ca_certs"] = auth.capath      # the proxy leg builds its own context and needs the CA too
-    elif variant % 2 == 0 or p["backend"] == "pyopenssl":
-        # (PyOpenSSLContext.load_verify_locations cannot take ca_cert_data alone: it fails closed with
-        # SSLError "unable to load trusted certificates" before anything is sent -- outside C07)
+    elif p["casrc"] == "file":
         kw["ca_certs"] = auth.capath
-    else:
-        kw["ca_cert_data"] = auth.cadata
+    elif p["casrc"] == "data":
+        # PEM text, or (bytes mean DER to the ssl module) the same certificate in DER
+        kw["ca_cert_data"] = auth.cadata if variant % 2 else ssl.PEM_cert_to_DER_cert(auth.cadata)
+    elif p["casrc"] == "dir":
+        kw["ca_cert_dir"] = auth.cadir
     if REQS[p["reqs"]] is not None:
         kw["cert_reqs"] = REQS[p["reqs"]] if variant % 3 else getattr(ssl, REQS[p["reqs"]])
     if p["ah"] == "False":
